@@ -1,6 +1,6 @@
 PROP = dict(
     id="C18",
-    lean_modules=[],
+    lean_modules=["TongoProofs.C18"],
     gen=[],
     spec_ops=(),
     rule="tbd",
